@@ -11,10 +11,12 @@ import Mathlib.Algebra.Order.Field.Rat
 import OpmVerif.Proofs.Pvt
 import OpmVerif.Proofs.PvtFill
 import OpmVerif.Proofs.PvtFillDesc
+import OpmVerif.Proofs.PvtSat
 import OpmVerif.Proofs.Tab2DGuide
 import OpmVerif.Proofs.Tab1DDeriv
 import OpmVerif.Proofs.PvtRegion
 import OpmVerif.Gen.PvtRegion
+import OpmVerif.Gen.Tab2D
 
 namespace OpmVerif.Props.C14
 open OpmVerif.Tab1D OpmVerif.Tab2D OpmVerif.Pvt OpmVerif.PvtRegion
@@ -169,6 +171,23 @@ theorem undersat_meets_sat_liveoil (L : Live K) (hg : L.invB.guide = .leftExtrem
   unfold Live.invBAt Live.rsAt Live.satInvBAt
   rw [h1, h2, h3]
   exact eval_meets_saturated L.invB hg hx hy hn hl L.invSatB hsv p
+
+/-- **undersat_meets_sat for the live-oil model itself** (`initFromState` + `initEnd` with the
+repaired `appendSamplePoint`): from `liveOil true … recs = some L` alone — records after the
+extension with strictly increasing Rs keys and saturated pressures, every branch ≥ 2 rows
+strictly increasing in pressure — for *every* pressure `p` (saturated nodes, between them,
+beyond the table) `1/B(p, Rs_sat(p)) = 1/B_sat(p)`.  The index bookkeeping (guide points =
+first sample of every record through `appendAll`/`fillTable`, the `List.range`-indexed
+saturated lists, keys and first rows kept by the extension) is proved, not assumed. -/
+theorem undersat_meets_sat_liveoil_model (g : Bool) (c : Consts K) (recs ext : List (Rec K)) (L : Live K)
+    (h : liveOil true g c recs = some L) (he : extendAll c recs = some ext)
+    (hk : StrictInc (ext.map fun r => r.key)) (hsat : StrictInc (ext.map firstY)) (hn : 2 ≤ ext.length)
+    (hrows : ∀ r ∈ ext, StrictInc (r.rows.map fun row => row.1) ∧ 2 ≤ r.rows.length) (p : K) :
+    L.invBAt (L.rsAt p) p = L.satInvBAt p :=
+  liveOil_undersat_meets_sat g c recs ext L h he hk hsat hn hrows p
+
+/-- The code's shape is the repaired one (regenerated from the header on every run). -/
+theorem guide_rule_is_the_repaired_one : Gen.Tab2D.firstAppendSetsLeftGuide = true := by decide
 
 /-! ## PVT classes -/
 
@@ -528,5 +547,9 @@ example : Tab2D.eval qt (evalX qt.yPos qt.xPos 150) 150 = 2 := by
 /-- a PVTG-like branch: Rv descending 3, 2, 0 — reversed it is strictly increasing -/
 example : StrictInc ((([(3, 1, 1), (2, 1, 1), (0, 1, 1)] : List (ℚ × ℚ × ℚ)).map fun row => row.1).reverse) := by
   simpa using strictInc_three (a := (0 : ℚ)) (b := 2) (c := 3) (by norm_num) (by norm_num)
+/-- two PVTO-like records (Rs 0 and 10, saturated pressures 100 and 200): the hypotheses of
+`undersat_meets_sat_liveoil_model` on keys, saturated pressures and rows are satisfiable -/
+example : StrictInc (([⟨0, [(100, 1, 1), (300, 1, 1)]⟩, ⟨10, [(200, 1, 1), (400, 1, 1)]⟩] : List (Rec ℚ)).map firstY) := by
+  simpa [firstY] using strictInc_two (a := (100 : ℚ)) (b := 200) (by norm_num)
 
 end OpmVerif.Props.C14
